@@ -83,10 +83,17 @@ for n, v in (('SshRecordInit', 'SshMessageVariantInit'), ('SshRecordKexDH', 'Ssh
     entry(n, 'RFC 4253 6: uint32 packet_length, byte padding_length, byte[n1] payload, byte[n2] random padding',
           [{'u': 4, 'name': 'packet_length'}, {'len': 1, 'of': ['padding'], 'name': 'padding_length'}, S([v, 'SshMessageBase']), {'raw': '*', 'name': 'padding'}])
 # certificates (OpenSSH PROTOCOL.certkeys)
-tail_v01 = [{'u': 8, 'name': 'serial'}, {'u': 4, 'name': 'type'}, string(name='key id'), S('SshCertValidPrincipals'),
-            {'ts': 8, 'name': 'valid after'}, {'ts': 8, 'name': 'valid before'}, S('SshCertCriticalOptionVector'), S('SshCertExtensionVector'),
+def A(item, attr):
+    """the item carries the named attribute of the object (checked on both sides)"""
+    return dict(item, attr=attr)
+
+
+tail_v01 = [A({'u': 8, 'name': 'serial'}, 'serial'), {'u': 4, 'name': 'type'}, string(name='key id'), A(S('SshCertValidPrincipals'), 'valid_principals'),
+            A({'ts': 8, 'name': 'valid after'}, 'valid_after'), A({'ts': 8, 'name': 'valid before'}, 'valid_before'),
+            A(S('SshCertCriticalOptionVector'), 'critical_options'), A(S('SshCertExtensionVector'), 'extensions'),
             blob('reserved'), wrapped(['SshHostPublicKeyVariant', 'SshPublicKeyBase']), wrapped(['SshCertSignature'])]
-tail_v00 = [{'u': 4, 'name': 'type'}, string(name='key id'), S('SshCertValidPrincipals'), {'ts': 8}, {'ts': 8}, S('SshCertConstraintVector'),
+tail_v00 = [{'u': 4, 'name': 'type'}, string(name='key id'), A(S('SshCertValidPrincipals'), 'valid_principals'), A({'ts': 8}, 'valid_after'), A({'ts': 8}, 'valid_before'),
+            A(S('SshCertConstraintVector'), 'constraints'),
             blob('nonce'), blob('reserved'), wrapped(['SshHostPublicKeyVariant', 'SshPublicKeyBase']), wrapped(['SshCertSignature'])]
 keys = {'DSS': [mpint('p'), mpint('q'), mpint('g'), mpint('y')], 'RSA': [mpint('e'), mpint('n')],
         'ECDSA': [string(), blob('public_key')], 'EDDSA': [blob('pk')]}
